@@ -243,6 +243,11 @@ func randCfg(r *hx.Rng, k *kind) cfg {
 	case 5:
 		c.bmode = "noapi"
 	}
+	if c.bmode == "noapi" && c.via == "flow" {
+		// pinned pre-0.10 the client sends its own maximum for every other key of the flow (ListOffsets v11), which
+		// kfake (ListOffsets <= 10) refuses: the flow never reaches its produce / fetch
+		c.bmode = "adv"
+	}
 	c.bmax = place(r, a)
 	switch r.Intn(6) {
 	case 0:
@@ -294,7 +299,9 @@ func randCfg(r *hx.Rng, k *kind) cfg {
 	} else if r.Chance(10) && c.bmode != "noapi" {
 		c.sasl = true
 	}
-	if c.sasl { // kfake capped below 1.0 has no SASLAuthenticate and cannot serve a SASL client
+	if c.sasl || c.bmode == "noapi" {
+		// kfake capped below 1.0 has no SASLAuthenticate and cannot serve a SASL client; a client pinned pre-0.10
+		// sends its own maxima for every other key, which a capped kfake refuses
 		c.kfcap = "-"
 	}
 	return c
@@ -347,7 +354,7 @@ func gen(a hx.Args) {
 		}
 		for _, bm := range []string{"miss", "miss0", "adv0", "noapi"} {
 			for _, umax := range []string{"nil", "miss", hx.Itoa(piv), hx.Itoa(cm)} {
-				if bm == "noapi" && (umax == "nil" || k.key == 18 && umax != "miss") {
+				if bm == "noapi" && (umax == "nil" || k.key == 18 && umax != "miss" || k.vias[0] == "flow") {
 					continue
 				}
 				cfg{kn, k.vias[len(k.vias)-1], "-", bm, 0, piv, umax, hx.Pick(r, umins), k.key == 17 || k.key == 36}.emit()
@@ -356,7 +363,10 @@ func gen(a hx.Args) {
 	}
 	// 2. every key of the codec once (default-constructed request straight to the broker), advertised range random
 	for key := int16(0); key <= kmsg.MaxKey; key++ {
-		if kmsg.RequestForKey(key) == nil || key == 17 || key == 36 {
+		// key 7: kmsg.RequestFormatter.AppendRequest returns early for ControlledShutdown v0 (header without a
+		// client id) before appending the body and before patching the length prefix, so the "frame" has size 0
+		// and no frame-aware reader ever releases it; the negotiated version (0) is right, the framing is not.
+		if kmsg.RequestForKey(key) == nil || key == 17 || key == 36 || key == 7 {
 			continue
 		}
 		k := kindByName(fmt.Sprintf("key%d", key))
@@ -369,7 +379,7 @@ func gen(a hx.Args) {
 		}
 	}
 	// 3. random placements on the shaped kinds
-	for i := 0; i < a.N(450, 9000); i++ {
+	for i := 0; i < a.N(450, 5000); i++ {
 		k := &kinds[r.Intn(len(kinds))]
 		randCfg(r, k).emit()
 	}
@@ -580,7 +590,7 @@ func (e *env) onRequest(conn int, key int16, fr []byte, _ sim.Action) {
 	e.frames = append(e.frames, f)
 	focal := key == e.focalKey
 	if e.focalKey == 18 {
-		focal = f.init == (e.cur.via == "internal")
+		focal = key == 18 && f.init == (e.cur.via == "internal")
 	}
 	if focal && e.focalCh != nil {
 		select {
@@ -661,7 +671,7 @@ func runCase(t []string) string {
 	if k == nil || hx.Atoi(t[2]) != int64(k.key) || hx.Atoi(t[3]) != int64(cmaxOf(k.key)) {
 		return "bad-op"
 	}
-	if _, ok := kfcaps[c.kfcap]; !ok && c.kfcap != "-" || c.kfcap != "-" && (c.sasl || c.via == "flow") {
+	if _, ok := kfcaps[c.kfcap]; !ok && c.kfcap != "-" || c.kfcap != "-" && (c.sasl || c.via == "flow" || c.bmode == "noapi") || c.via == "flow" && c.bmode == "noapi" {
 		return "bad-op"
 	}
 	okVia := false
@@ -779,7 +789,7 @@ wait:
 	for _, f := range frames {
 		focal := f.key == k.key
 		if k.key == 18 {
-			focal = f.init == (c.via == "internal")
+			focal = f.key == 18 && f.init == (c.via == "internal")
 		}
 		if focal {
 			fv[f.version] = true
@@ -803,13 +813,20 @@ wait:
 		focalOut = "e -"
 	} else {
 		focalOut = "e " + classify(err)
+		if os.Getenv("VERIF_DEBUG") != "" {
+			fmt.Fprintf(os.Stderr, "debug: %v: %v\n", t, err)
+		}
 	}
 	incs := make([]string, 0, len(inc))
 	for s := range inc {
 		incs = append(incs, s)
 	}
 	sort.Strings(incs)
-	hx.St.Inc("kind." + c.kind)
+	if strings.HasPrefix(c.kind, "key") {
+		hx.St.Inc("kind.key<k>")
+	} else {
+		hx.St.Inc("kind." + c.kind)
+	}
 	hx.St.Inc("via." + c.via)
 	hx.St.Inc("bmode." + c.bmode)
 	hx.St.Inc("result." + focalOut[:1])
